@@ -75,21 +75,23 @@ Lemma lrun_cons c st e t :
   lrun c st (e :: t) = let '(s1, o1) := step c st e in let '(s2, o2) := lrun c s1 t in (s2, o1 ++ o2).
 Proof. reflexivity. Qed.
 
-Lemma step_member c st a tg v : accepts c a (MMember, tg, v) = true ->
+Lemma step_member c st a tg v : stopped st = false -> accepts c a (MMember, tg, v) = true ->
   step c st (Handle a (MMember, tg, v)) =
-  (mkSt (set_view a v (views st)) (responded st) (chan st) (pass st) (ph st), []).
-Proof. intros H. unfold step. rewrite H. reflexivity. Qed.
+  (mkSt (set_view a v (views st)) (responded st) (chan st) (queried st) (qchan st) (qacc st) (stopped st) (pass st) (ph st), []).
+Proof. intros H0 H. unfold step, set_views. destruct (stopped st); [discriminate|]. rewrite H. reflexivity. Qed.
 
-Lemma step_query c st a tg v : accepts c a (MQuery, tg, v) = true ->
+Lemma step_query c st a tg v : stopped st = false -> accepts c a (MQuery, tg, v) = true ->
+  fix_queries c = true -> memb a (queried st) = false ->
   step c st (Handle a (MQuery, tg, v)) =
-  (mkSt (set_view a v (views st)) (responded st) (chan st) (pass st) (ph st),
-   [SendTo a MResp (my_view c (mkSt (set_view a v (views st)) (responded st) (chan st) (pass st) (ph st)))]).
-Proof. intros H. unfold step. rewrite H. reflexivity. Qed.
+  (mkSt (set_view a v (views st)) (responded st) (chan st) (a :: queried st) (qchan st ++ [(a, v)]) (qacc st)
+        (stopped st) (pass st) (ph st),
+   [SendTo a MResp (my_view_of c (keys (set_view a v (views st))))]).
+Proof. intros H0 H H1 H2. unfold step, set_views, my_view. destruct (stopped st); [discriminate|]. rewrite H, H1, H2. reflexivity. Qed.
 
-Lemma step_resp c st a tg v : accepts c a (MResp, tg, v) = true -> memb a (responded st) = false ->
+Lemma step_resp c st a tg v : stopped st = false -> accepts c a (MResp, tg, v) = true -> memb a (responded st) = false ->
   step c st (Handle a (MResp, tg, v)) =
-  (mkSt (views st) (a :: responded st) (chan st ++ [v]) (pass st) (ph st), []).
-Proof. intros H1 H2. unfold step. rewrite H1, H2. reflexivity. Qed.
+  (mkSt (views st) (a :: responded st) (chan st ++ [v]) (queried st) (qchan st) (qacc st) (stopped st) (pass st) (ph st), []).
+Proof. intros H0 H1 H2. unfold step. destruct (stopped st); [discriminate|]. rewrite H1, H2. reflexivity. Qed.
 
 Section Live.
 Variable tp : N.
@@ -102,7 +104,8 @@ Hypothesis H_two : (2 <= length H)%nat.
 
 Let n := length H.
 Let V : view := isort H.
-Notation cfgOf := (Global.cfgOf tp mem n fx fs).
+Notation cfgOf := (Global.cfgOf tp mem n fx fs true).
+Notation mk vs rs ch qd qc qa pa p := (mkSt vs rs ch qd qc qa false pa p).
 
 Definition others (b : N) : list N := remove N.eq_dec b H.
 
@@ -148,7 +151,7 @@ Proof.
   intros Hin. apply others_in in Hin. destruct Hin as [A B]. apply accepts_spec. simpl. auto.
 Qed.
 
-(* ---------- the eight stages of one member's run ---------- *)
+(* ---------- the nine stages of one member's run ---------- *)
 Definition ann (W : N -> view) (a : N) : event := Handle a (MMember, (tp, a), W a).
 Definition stage (k : nat) (b : N) : list event :=
   match k with
@@ -160,18 +163,24 @@ Definition stage (k : nat) (b : N) : list event :=
   | 6 => map (fun a => Handle a (MQuery, (tp, a), V)) (others b)
   | 7 => map (fun a => Handle a (MResp, (tp, a), V)) (others b)
   | 8 => repeat TakeResponse (n - 1)
+  | 9 => repeat TakeQuery (n - 1)
   | _ => []
   end%nat.
+
+Notation VV l := (vw (fun _ : N => V) l).
 
 (* local state after stage k *)
 Definition lst (k : nat) (b : N) : state :=
   match k with
   | 0 | 1 => state0
-  | 2 | 3 => mkSt (vw (fun a => [a]) (others b)) [] [] None Collect
-  | 4 => mkSt (vw (fun _ => V) (others b)) [] [] None Collect
-  | 5 | 6 => mkSt (vw (fun _ => V) (others b)) [] [] None (Query V (n - 1))
-  | 7 => mkSt (vw (fun _ => V) (others b)) (rev (others b)) (map (fun _ => V) (others b)) None (Query V (n - 1))
-  | _ => mkSt (vw (fun _ => V) (others b)) (rev (others b)) [] None (Done V)
+  | 2 | 3 => mk (vw (fun a => [a]) (others b)) [] [] [] [] [] None Collect
+  | 4 => mk (VV (others b)) [] [] [] [] [] None Collect
+  | 5 => mk (VV (others b)) [] [] [] [] [] None (Query V (n - 1) (n - 1))
+  | 6 => mk (VV (others b)) [] [] (rev (others b)) (VV (others b)) [] None (Query V (n - 1) (n - 1))
+  | 7 => mk (VV (others b)) (rev (others b)) (map (fun _ => V) (others b)) (rev (others b)) (VV (others b)) [] None
+            (Query V (n - 1) (n - 1))
+  | 8 => mk (VV (others b)) (rev (others b)) [] (rev (others b)) (VV (others b)) [] None (Query V 0 (n - 1))
+  | _ => mk (VV (others b)) (rev (others b)) [] (rev (others b)) [] (rev (others b)) None (Done V)
   end%nat.
 
 (* outputs of stage k *)
@@ -181,18 +190,20 @@ Definition lout (k : nat) (b : N) : list output :=
   | 3 => [Bcast MMember V]
   | 5 => [Bcast MQuery V]
   | 6 => map (fun a => SendTo a MResp V) (others b)
-  | 8 => [Continue V]
+  | 9 => [Continue V]
   | _ => []
   end%nat.
 
+Ltac cbn_st := cbn [views responded chan queried qchan qacc stopped pass ph].
+
 Lemma stage2 b : forall l pre, NoDup (pre ++ l) -> (forall a, In a l -> In a (others b)) ->
-  lrun (cfgOf b) (mkSt (vw (fun a => [a]) pre) [] [] None Collect) (map (ann (fun a => [a])) l) =
-  (mkSt (vw (fun a => [a]) (pre ++ l)) [] [] None Collect, []).
+  lrun (cfgOf b) (mk (vw (fun a => [a]) pre) [] [] [] [] [] None Collect) (map (ann (fun a => [a])) l) =
+  (mk (vw (fun a => [a]) (pre ++ l)) [] [] [] [] [] None Collect, []).
 Proof.
   induction l as [|a l IH]; intros pre Hnd Hsub.
   - simpl. rewrite app_nil_r. reflexivity.
-  - cbn [map]. unfold ann at 1. rewrite lrun_cons, step_member by (apply accepts_other, Hsub; left; reflexivity).
-    cbn [views responded chan pass ph]. rewrite set_view_new.
+  - cbn [map]. unfold ann at 1. rewrite lrun_cons, step_member; [|reflexivity|apply accepts_other, Hsub; left; reflexivity].
+    cbn_st. rewrite set_view_new.
     2:{ apply NoDup_remove_2 in Hnd. intros Hin. apply Hnd. apply in_app_iff. auto. }
     rewrite (vw_snoc (fun x => [x]) pre a).
     rewrite IH.
@@ -202,13 +213,13 @@ Proof.
 Qed.
 
 Lemma stage4 b : forall l pre, NoDup (pre ++ l) -> (forall a, In a l -> In a (others b)) ->
-  lrun (cfgOf b) (mkSt (vw (fun _ => V) pre ++ vw (fun a => [a]) l) [] [] None Collect) (map (ann (fun _ => V)) l) =
-  (mkSt (vw (fun _ => V) (pre ++ l)) [] [] None Collect, []).
+  lrun (cfgOf b) (mk (VV pre ++ vw (fun a => [a]) l) [] [] [] [] [] None Collect) (map (ann (fun _ => V)) l) =
+  (mk (VV (pre ++ l)) [] [] [] [] [] None Collect, []).
 Proof.
   induction l as [|a l IH]; intros pre Hnd Hsub.
   - simpl. rewrite !app_nil_r. reflexivity.
-  - cbn [map]. unfold ann at 1. rewrite lrun_cons, step_member by (apply accepts_other, Hsub; left; reflexivity).
-    cbn [views responded chan pass ph].
+  - cbn [map]. unfold ann at 1. rewrite lrun_cons, step_member; [|reflexivity|apply accepts_other, Hsub; left; reflexivity].
+    cbn_st.
     rewrite (set_view_mid a V (fun _ => V) (fun x => [x]) pre l).
     2:{ apply NoDup_remove_2 in Hnd. intros Hin. apply Hnd. apply in_app_iff. auto. }
     rewrite (vw_mid (fun _ => V) (fun x => [x]) pre a l).
@@ -219,8 +230,8 @@ Proof.
 Qed.
 
 Lemma stage5_visits b pend : forall l pre, NoDup (pre ++ l) -> (forall a, In a (pre ++ l) -> In a (others b)) ->
-  lrun (cfgOf b) (mkSt (vw (fun _ => V) (others b)) [] [] (Some (pend, vw (fun _ => V) pre)) Collect) (map Visit l) =
-  (mkSt (vw (fun _ => V) (others b)) [] [] (Some (pend, vw (fun _ => V) (pre ++ l))) Collect, []).
+  lrun (cfgOf b) (mk (VV (others b)) [] [] [] [] [] (Some (pend, VV pre)) Collect) (map Visit l) =
+  (mk (VV (others b)) [] [] [] [] [] (Some (pend, VV (pre ++ l))) Collect, []).
 Proof.
   induction l as [|a l IH]; intros pre Hnd Hsub.
   - simpl. rewrite app_nil_r. reflexivity.
@@ -228,14 +239,14 @@ Proof.
     rewrite (lookup_vw (fun _ => V)) by (apply Hsub, in_app_iff; right; left; reflexivity).
     rewrite keys_vw, memb_false.
     2:{ apply NoDup_remove_2 in Hnd. intros Hin. apply Hnd. apply in_app_iff. auto. }
-    cbn [responded chan]. rewrite (vw_snoc (fun _ => V) pre a).
+    unfold set_pass. cbn_st. rewrite (vw_snoc (fun _ => V) pre a).
     rewrite IH.
     + rewrite <- app_assoc. reflexivity.
     + rewrite <- app_assoc. exact Hnd.
     + intros x Hx. apply Hsub. rewrite <- app_assoc in Hx. exact Hx.
 Qed.
 
-Lemma all_eq_vw l : all_eq V (vw (fun _ => V) l) = true.
+Lemma all_eq_vw l : all_eq V (VV l) = true.
 Proof.
   apply all_eq_spec. intros k v Hin. unfold vw in Hin. apply in_map_iff in Hin.
   destruct Hin as (x & E & _). inversion E. reflexivity.
@@ -246,54 +257,68 @@ Lemma stage5 b : In b H ->
 Proof.
   intros Hb. unfold stage, lst, lout.
   change (Pass1 :: map Visit (others b) ++ [Pass2]) with ([Pass1] ++ map Visit (others b) ++ [Pass2]).
-  rewrite lrun_app. simpl lrun at 1. rewrite keys_vw.
+  rewrite lrun_app. simpl lrun at 1. unfold set_pass. cbn_st. rewrite keys_vw.
   rewrite lrun_app.
-  change (@nil (N * view)) with (vw (fun _ => V) []).
-  rewrite (stage5_visits b (others b) (others b) []); [|apply others_nodup|auto].
-  simpl app. simpl lrun. rewrite !keys_vw.
+  assert (Ev := stage5_visits b (others b) (others b) [] (others_nodup b) (fun a Ha => Ha)).
+  cbn [app] in Ev. change (VV []) with (@nil (N * view)) in Ev. rewrite Ev. clear Ev.
+  cbn [app lrun step ph pass views]. rewrite !keys_vw.
   assert (Hf : forallb (fun k : N => memb k (others b)) (others b) = true).
   { apply forallb_forall. intros x Hx. apply memb_spec. exact Hx. }
   rewrite Hf.
-  assert (Hi : intersected (cfgOf b) (vw (fun _ => V) (others b)) (others b) = V).
-  { unfold intersected. simpl. rewrite keys_vw.
+  assert (Hi : intersected (cfgOf b) (VV (others b)) (others b) = V).
+  { unfold intersected. cbn [fix_onepass fix_solo Global.cfgOf]. rewrite keys_vw.
     assert (Hmv : my_view_of (cfgOf b) (if fx then others b else others b) = V).
     { destruct fx; unfold my_view_of; simpl; apply view_of_others; exact Hb. }
     rewrite Hmv. rewrite all_eq_vw.
     destruct fs; [reflexivity|]. apply last_view_all_eq; [apply all_eq_vw|].
-    pose proof (others_length b Hb) as Hl. destruct (others b); [simpl in Hl; lia|discriminate]. }
+    pose proof (others_length b Hb) as Hl. unfold vw. destruct (others b); [simpl in Hl; lia|discriminate]. }
   rewrite Hi. unfold decide. simpl expected. rewrite V_length.
   rewrite Nat.leb_refl, Nat.ltb_irrefl. rewrite (isort_id V V_sorted).
   destruct (n - 1)%nat eqn:E; [unfold n in E; lia|]. reflexivity.
 Qed.
 
-Lemma stage6 b : In b H -> forall l, (forall a, In a l -> In a (others b)) ->
-  lrun (cfgOf b) (mkSt (vw (fun _ => V) (others b)) [] [] None (Query V (n - 1)))
+Lemma stage6 b : In b H -> forall l pre, NoDup (pre ++ l) -> (forall a, In a l -> In a (others b)) ->
+  lrun (cfgOf b) (mk (VV (others b)) [] [] (rev pre) (VV pre) [] None (Query V (n - 1) (n - 1)))
        (map (fun a => Handle a (MQuery, (tp, a), V)) l) =
-  (mkSt (vw (fun _ => V) (others b)) [] [] None (Query V (n - 1)), map (fun a => SendTo a MResp V) l).
+  (mk (VV (others b)) [] [] (rev (pre ++ l)) (VV (pre ++ l)) [] None (Query V (n - 1) (n - 1)),
+   map (fun a => SendTo a MResp V) l).
 Proof.
-  intros Hb. induction l as [|a l IH]; intros Hsub; [reflexivity|].
-  cbn [map]. rewrite lrun_cons, step_query by (apply accepts_other, Hsub; left; reflexivity).
-  cbn [views responded chan pass ph].
-  rewrite set_view_same.
-  2:{ rewrite keys_vw. apply others_nodup. }
-  2:{ unfold vw. apply in_map_iff. exists a. split; [reflexivity|apply Hsub; left; reflexivity]. }
-  unfold my_view. cbn [views]. rewrite keys_vw.
-  unfold my_view_of. cbn [self Global.cfgOf]. rewrite (view_of_others b Hb).
-  rewrite IH by (intros x Hx; apply Hsub; right; exact Hx). reflexivity.
+  intros Hb. induction l as [|a l IH]; intros pre Hnd Hsub.
+  - simpl. rewrite app_nil_r. reflexivity.
+  - cbn [map]. rewrite lrun_cons, step_query.
+    2:{ reflexivity. }
+    2:{ apply accepts_other, Hsub. left. reflexivity. }
+    2:{ reflexivity. }
+    2:{ cbn_st. apply memb_false. apply NoDup_remove_2 in Hnd. intros Hin. apply Hnd.
+        apply in_app_iff. left. apply in_rev. exact Hin. }
+    cbn_st.
+    rewrite set_view_same.
+    2:{ rewrite keys_vw. apply others_nodup. }
+    2:{ unfold vw. apply in_map_iff. exists a. split; [reflexivity|apply Hsub; left; reflexivity]. }
+    rewrite keys_vw.
+    unfold my_view_of. cbn [self Global.cfgOf]. rewrite (view_of_others b Hb).
+    replace (a :: rev pre) with (rev (pre ++ [a])) by (rewrite rev_app_distr; reflexivity).
+    replace (VV pre ++ [(a, V)]) with (VV (pre ++ [a])) by (rewrite <- (vw_snoc (fun _ => V)); reflexivity).
+   
+    rewrite IH.
+    + rewrite <- app_assoc. reflexivity.
+    + rewrite <- app_assoc. exact Hnd.
+    + intros x Hx. apply Hsub. right. exact Hx.
 Qed.
 
-Lemma stage7 b : forall l pre, NoDup (pre ++ l) -> (forall a, In a l -> In a (others b)) ->
-  lrun (cfgOf b) (mkSt (vw (fun _ => V) (others b)) (rev pre) (map (fun _ => V) pre) None (Query V (n - 1)))
+Lemma stage7 b qd qc : forall l pre, NoDup (pre ++ l) -> (forall a, In a l -> In a (others b)) ->
+  lrun (cfgOf b) (mk (VV (others b)) (rev pre) (map (fun _ => V) pre) qd qc [] None (Query V (n - 1) (n - 1)))
        (map (fun a => Handle a (MResp, (tp, a), V)) l) =
-  (mkSt (vw (fun _ => V) (others b)) (rev (pre ++ l)) (map (fun _ => V) (pre ++ l)) None (Query V (n - 1)), []).
+  (mk (VV (others b)) (rev (pre ++ l)) (map (fun _ => V) (pre ++ l)) qd qc [] None (Query V (n - 1) (n - 1)), []).
 Proof.
   induction l as [|a l IH]; intros pre Hnd Hsub.
   - simpl. rewrite app_nil_r. reflexivity.
   - cbn [map]. rewrite lrun_cons, step_resp.
+    2:{ reflexivity. }
     2:{ apply accepts_other, Hsub. left. reflexivity. }
-    2:{ cbn [responded]. apply memb_false. apply NoDup_remove_2 in Hnd. intros Hin. apply Hnd.
+    2:{ cbn_st. apply memb_false. apply NoDup_remove_2 in Hnd. intros Hin. apply Hnd.
         apply in_app_iff. left. apply in_rev. exact Hin. }
-    cbn [views responded chan pass ph].
+    cbn_st.
     replace (a :: rev pre) with (rev (pre ++ [a])) by (rewrite rev_app_distr; reflexivity).
     replace (map (fun _ : N => V) pre ++ [V]) with (map (fun _ : N => V) (pre ++ [a])) by (rewrite map_app; reflexivity).
     rewrite IH.
@@ -302,57 +327,83 @@ Proof.
     + intros x Hx. apply Hsub. right. exact Hx.
 Qed.
 
-Lemma stage8 b vs rs : forall k (ch : list N),
-  length ch = S k ->
-  lrun (cfgOf b) (mkSt vs rs (map (fun _ => V) ch) None (Query V (S k))) (repeat TakeResponse (S k)) =
-  (mkSt vs rs [] None (Done V), [Continue V]).
+Lemma VV_refl : view_eqb V V = true.
+Proof. apply view_eqb_spec. reflexivity. Qed.
+
+(* the acknowledgements are taken; queries are still missing, so the loop goes on *)
+Lemma stage8 b vs rs qd qc q : forall k (ch : list N),
+  length ch = k ->
+  lrun (cfgOf b) (mk vs rs (map (fun _ => V) ch) qd qc [] None (Query V k (S q))) (repeat TakeResponse k) =
+  (mk vs rs [] qd qc [] None (Query V 0 (S q)), []).
 Proof.
   induction k as [|k IH]; intros ch Hl.
-  - destruct ch as [|x [|y ch]]; simpl in Hl; try lia. simpl.
-    assert (E : view_eqb V V = true) by (apply view_eqb_spec; reflexivity). rewrite E. reflexivity.
+  - destruct ch; [reflexivity|discriminate].
   - destruct ch as [|x ch]; simpl in Hl; [lia|].
-    change (repeat TakeResponse (S (S k))) with (TakeResponse :: repeat TakeResponse (S k)).
-    simpl map. cbn [lrun step ph chan].
-    assert (E : view_eqb V V = true) by (apply view_eqb_spec; reflexivity). rewrite E.
-    cbn [views responded pass]. rewrite IH by lia. reflexivity.
+    change (repeat TakeResponse (S k)) with (TakeResponse :: repeat TakeResponse k).
+    simpl map. rewrite lrun_cons. cbn [step ph chan]. rewrite VV_refl. cbn_st.
+    unfold progress, set_ph. cbn [Nat.pred]. cbn_st.
+    replace (match k with | O | _ => (mk vs rs (map (fun _ : N => V) ch) qd qc [] None (Query V k (S q)), @nil output) end)
+      with (mk vs rs (map (fun _ : N => V) ch) qd qc [] None (Query V k (S q)), @nil output) by (destruct k; reflexivity).
+    rewrite IH by lia. reflexivity.
 Qed.
 
-Lemma stage_run k b : In b H -> (1 <= k <= 8)%nat ->
+(* the queries are taken; with the last one the member is through *)
+Lemma stage9 b vs rs qd : forall k (ch : list N) qa,
+  length ch = S k ->
+  lrun (cfgOf b) (mk vs rs [] qd (VV ch) qa None (Query V 0 (S k))) (repeat TakeQuery (S k)) =
+  (mk vs rs [] qd [] (rev ch ++ qa) None (Done V), [Continue V]).
+Proof.
+  induction k as [|k IH]; intros ch qa Hl.
+  - destruct ch as [|x [|y ch]]; simpl in Hl; try lia. simpl. rewrite VV_refl. reflexivity.
+  - destruct ch as [|x ch]; simpl in Hl; [lia|].
+    change (repeat TakeQuery (S (S k))) with (TakeQuery :: repeat TakeQuery (S k)).
+    cbn [vw map]. fold (vw (fun _ : N => V) ch).
+    rewrite lrun_cons. cbn [step ph qchan]. rewrite VV_refl. cbn_st.
+    unfold progress, set_ph. cbn [Nat.pred]. cbn_st.
+    rewrite IH by lia. cbn [rev]. rewrite <- app_assoc. reflexivity.
+Qed.
+
+Lemma stage_run k b : In b H -> (1 <= k <= 9)%nat ->
   lrun (cfgOf b) (lst (k - 1) b) (stage k b) = (lst k b, lout k b).
 Proof.
   intros Hb Hk.
-  assert (K : (k = 1 \/ k = 2 \/ k = 3 \/ k = 4 \/ k = 5 \/ k = 6 \/ k = 7 \/ k = 8)%nat) by lia.
-  destruct K as [->|[->|[->|[->|[->|[->|[->| ->]]]]]]]; simpl Nat.sub.
+  assert (K : (k = 1 \/ k = 2 \/ k = 3 \/ k = 4 \/ k = 5 \/ k = 6 \/ k = 7 \/ k = 8 \/ k = 9)%nat) by lia.
+  pose proof (others_length b Hb) as Hl.
+  destruct K as [->|[->|[->|[->|[->|[->|[->|[->| ->]]]]]]]]; simpl Nat.sub.
   - (* first tick: the view is [b] *) reflexivity.
-  - unfold stage, lst, lout. change state0 with (mkSt (vw (fun a => [a]) []) [] [] None Collect).
+  - unfold stage, lst, lout. change state0 with (mk (vw (fun a => [a]) []) [] [] [] [] [] None Collect).
     rewrite stage2; [reflexivity|apply others_nodup|auto].
   - (* second tick: the view is complete *)
     unfold stage, lst, lout. cbn [lrun step ph pass]. unfold my_view. cbn [views]. rewrite keys_vw.
     unfold my_view_of. cbn [self Global.cfgOf]. rewrite (view_of_others b Hb). reflexivity.
   - unfold stage, lst, lout.
-    replace (vw (fun a => [a]) (others b)) with (vw (fun _ => V) [] ++ vw (fun a => [a]) (others b)) by reflexivity.
+    replace (vw (fun a => [a]) (others b)) with (VV [] ++ vw (fun a => [a]) (others b)) by reflexivity.
     rewrite stage4; [reflexivity|apply others_nodup|auto].
   - apply stage5. exact Hb.
-  - unfold stage, lst, lout. apply stage6; auto.
   - unfold stage, lst, lout.
-    change (@nil N) with (rev (@nil N)) at 1. change (@nil view) with (map (fun _ : N => V) []) at 1.
-    rewrite stage7; [reflexivity|apply others_nodup|auto].
+    assert (E := stage6 b Hb (others b) [] (others_nodup b) (fun a Ha => Ha)).
+    cbn [app rev] in E. change (VV []) with (@nil (N * view)) in E. exact E.
   - unfold stage, lst, lout.
-    pose proof (others_length b Hb) as Hl.
+    assert (E := stage7 b (rev (others b)) (VV (others b)) (others b) [] (others_nodup b) (fun a Ha => Ha)).
+    cbn [app rev map] in E. exact E.
+  - unfold stage, lst, lout.
     destruct (n - 1)%nat eqn:E; [unfold n in E; lia|].
     apply stage8. exact Hl.
+  - unfold stage, lst, lout.
+    destruct (n - 1)%nat eqn:E; [unfold n in E; lia|].
+    rewrite (stage9 b _ _ _ n0 (others b) []); [rewrite app_nil_r; reflexivity|exact Hl].
 Qed.
 
 (* ---------- the global schedule ---------- *)
 Definition honestH (x : N) : Prop := In x H.
-Notation gstep := (Global.gstep tp mem n fx fs).
-Notation reachable := (Global.reachable tp mem n fx fs honestH).
-Notation admissible := (Global.admissible tp mem n fx fs honestH).
-Notation grun := (Exec.grun tp mem n fx fs).
+Notation gstep := (Global.gstep tp mem n fx fs true).
+Notation reachable := (Global.reachable tp mem n fx fs true honestH).
+Notation admissible := (Global.admissible tp mem n fx fs true honestH).
+Notation grun := (Exec.grun tp mem n fx fs true).
 
 Definition on (x : N) (evs : list event) : list gevent := map (pair x) evs.
 Definition phase (k : nat) : list gevent := flat_map (fun x => on x (stage k x)) H.
-Definition fair : list gevent := flat_map phase (seq 1 8).
+Definition fair : list gevent := flat_map phase (seq 1 9).
 
 Lemma grun_app S e1 e2 : grun S (e1 ++ e2) = grun (grun S e1) e2.
 Proof. unfold Exec.grun. apply fold_left_app. Qed.
@@ -442,13 +493,13 @@ Proof.
 Qed.
 
 (* every message handled in stage k was emitted in an earlier stage by its (honest) origin *)
-Lemma stage_adm k S : (1 <= k <= 8)%nat ->
+Lemma stage_adm k S : (1 <= k <= 9)%nat ->
   (forall a j o, In a H -> (1 <= j < k)%nat -> In o (lout j a) -> In (a, o) (emitted S)) ->
   forall b ev, In b H -> In ev (stage k b) -> admissible S (b, ev).
 Proof.
   intros Hk Hem b ev Hb Hev. unfold Global.admissible. split; [exact Hb|].
-  assert (K : (k = 1 \/ k = 2 \/ k = 3 \/ k = 4 \/ k = 5 \/ k = 6 \/ k = 7 \/ k = 8)%nat) by lia.
-  destruct K as [->|[->|[->|[->|[->|[->|[->| ->]]]]]]]; unfold stage in Hev.
+  assert (K : (k = 1 \/ k = 2 \/ k = 3 \/ k = 4 \/ k = 5 \/ k = 6 \/ k = 7 \/ k = 8 \/ k = 9)%nat) by lia.
+  destruct K as [->|[->|[->|[->|[->|[->|[->|[->| ->]]]]]]]]; unfold stage in Hev.
   - destruct Hev as [<-|[]]. exact I.
   - apply in_map_iff in Hev. destruct Hev as (a & <- & Ha). unfold ann. intros _ _. simpl. left.
     apply others_in in Ha. apply (Hem a 1%nat); [tauto|lia|left; reflexivity].
@@ -463,6 +514,7 @@ Proof.
     apply others_in in Ha. apply (Hem a 6%nat); [tauto|lia|].
     unfold lout. apply in_map_iff. exists b. split; [reflexivity|]. apply others_in. split; [exact Hb|]. intros ->. tauto.
   - apply repeat_spec in Hev. subst ev. exact I.
+  - apply repeat_spec in Hev. subst ev. exact I.
 Qed.
 
 Definition Sk (k : nat) : gstate := grun ginit (flat_map phase (seq 1 k)).
@@ -472,7 +524,7 @@ Proof.
   unfold Sk. rewrite seq_S, flat_map_app, grun_app. simpl. rewrite app_nil_r. reflexivity.
 Qed.
 
-Lemma Sk_inv k : (k <= 8)%nat ->
+Lemma Sk_inv k : (k <= 9)%nat ->
   reachable (Sk k) /\
   (forall b, In b H -> g (Sk k) b = lst k b) /\
   (forall a j o, In a H -> (1 <= j <= k)%nat -> In o (lout j a) -> In (a, o) (emitted (Sk k))).
@@ -499,8 +551,8 @@ Proof.
   unfold phase in Hin. apply in_flat_map in Hin. destruct Hin as (b & Hb & Hin).
   unfold on in Hin. apply in_map_iff in Hin. destruct Hin as (ev & E & Hev). inversion E; subst b ev.
   apply in_seq in Hk.
-  assert (K : (k = 1 \/ k = 2 \/ k = 3 \/ k = 4 \/ k = 5 \/ k = 6 \/ k = 7 \/ k = 8)%nat) by lia.
-  destruct K as [->|[->|[->|[->|[->|[->|[->| ->]]]]]]]; unfold stage in Hev.
+  assert (K : (k = 1 \/ k = 2 \/ k = 3 \/ k = 4 \/ k = 5 \/ k = 6 \/ k = 7 \/ k = 8 \/ k = 9)%nat) by lia.
+  destruct K as [->|[->|[->|[->|[->|[->|[->|[->| ->]]]]]]]]; unfold stage in Hev.
   - destruct Hev as [E'|[]]; discriminate.
   - apply in_map_iff in Hev. destruct Hev as (a & E' & _). discriminate.
   - destruct Hev as [E'|[]]; discriminate.
@@ -510,6 +562,7 @@ Proof.
   - apply in_map_iff in Hev. destruct Hev as (a & E' & _). discriminate.
   - apply in_map_iff in Hev. destruct Hev as (a & E' & _). discriminate.
   - apply repeat_spec in Hev. discriminate.
+  - apply repeat_spec in Hev. discriminate.
 Qed.
 
 Theorem live :
@@ -517,8 +570,8 @@ Theorem live :
   (forall b, In b H -> In (b, Continue (isort H)) (emitted (grun ginit fair))) /\
   (forall x, ~ In (x, CtxDone) fair).
 Proof.
-  destruct (Sk_inv 8 (le_n 8)) as (R & _ & E).
+  destruct (Sk_inv 9 (le_n 9)) as (R & _ & E).
   split; [exact R|]. split; [|exact fair_no_ctxdone].
-  intros b Hb. apply (E b 8%nat); [exact Hb|lia|left; reflexivity].
+  intros b Hb. apply (E b 9%nat); [exact Hb|lia|left; reflexivity].
 Qed.
 End Live.
